@@ -24,6 +24,11 @@ hio.help.timing.time).  Reading sequences with forward advances and backward ste
   never decrease and `expired` never goes True -> False     (the statement);
   when the script has no backward step, the dyadic-domain values equal the plain
   TimerModel (elapsed = now - start, ...) and start/restart return the model's value.
+Clock scripts are per time() CALL, not per property read: a backward step can be scheduled
+  just before the n-th next call (`backat`), so it falls between any two consecutive calls
+  wherever the code makes them - also between two calls inside one property read, if the
+  code under test reads the clock more than once there - and `tick` makes every call read
+  later than the previous one.  Monotonicity is judged over the values the properties return.
 MonoTimer(retro=False): a read that sees a retrograded clock raises RetroTimerError
   (documented); such reads hand out no value, are recorded and skipped.  The same
   automaton judges the reads that DO return - including repeated reads after a caught
@@ -55,7 +60,7 @@ TECHNIQUE = ("lock-step exact-rational reference model (Tymer; MonoTimer on forw
 RULE = ("Tymer: histories of ops {tick, tick(x), tyme=x (incl. rewinds), start(d?,s?), restart(d?), wind(other tymist)} on "
         "2-3 scripted Tymists; every history up to length 3 (quick) / 4 (thorough) over a 13-op alphabet whose values make "
         "now == stop frequent, plus random histories of length <= 60 in the dyadic and in the general float domain. "
-        "MonoTimer: histories of {advance, step back, read elapsed/remaining/expired, start(d?,s?), restart(d?)} on the fake "
+        "MonoTimer: histories of {advance, step back, step back just before the n-th next time() call, read elapsed/remaining/expired, start(d?,s?), restart(d?)} on the fake "
         "clock, forward-only and with backward steps, both domains, retro=True and retro=False (reads repeated after a caught "
         "RetroTimerError while the clock is still behind, after partial and full catch-up). Non-trivial: Tymer history has a rewind or a restart and "
         "`expired` was seen both True and False; MonoTimer history was read after a backward step while elapsed > 0 (or is "
@@ -82,7 +87,9 @@ REQUIRE = {"tymer_model_comparisons": 20000, "tymer_rewinds": 1000, "tymer_resta
            "tymer_now_equals_stop": 300, "tymer_float_invariant_checks": 5000, "tymer_restart_twin_probes": 300,
            "mono_reads": 5000, "mono_reads_after_backstep": 1000, "mono_expired_held_through_backstep": 100,
            "mono_forward_model_comparisons": 3000, "mono_noretro_reads_raised": 300,
-           "mono_noretro_repeated_reads_raised": 100, "mono_noretro_reads_returned_after_raise": 100}
+           "mono_noretro_repeated_reads_raised": 100, "mono_noretro_reads_returned_after_raise": 100,
+           "mono_backsteps_scheduled_at_a_call": 300, "mono_property_reads_with_a_scheduled_step": 300}
+PEAK_COUNTERS = ("mono_max_clock_calls_in_one_property_read",)
 EXHAUSTIVE = {"quick": "all Tymer op histories of length <= 3 over the 13-op alphabet (2 Tymists, boundary values)",
               "thorough": "all Tymer op histories of length <= 4 over the 13-op alphabet (2 Tymists, boundary values)"}
 
@@ -184,6 +191,14 @@ def mono_case(rng, dom, maxlen, forward_only, retro=True):
             if rng.random() < 0.8:
                 ops += [["adv", b], ["rd", "all"], ["rd", "all"]]
             continue
+        elif r < 0.38 and not forward_only and retro:
+            # a backward step scheduled per time() CALL: it falls just before the call that is `ahead` calls from now,
+            # wherever that call is made (between two property reads, or between two calls inside one read)
+            b = rng.choice([pos(), pos(), 3600.0, 1 / Q if dom == "dyadic" else 1e-6]) or 1 / Q
+            ops.append(["rd", "all"])
+            ops.append(["backat", rng.choice([0, 1, 1, 1, 2, 3, 5]), b])
+            ops += [["rd", rng.choice(["all", "expired", "elapsed", "remaining"])] for _ in range(rng.randint(2, 4))]
+            continue
         elif r < 0.45 and not forward_only:
             bracket = rng.random() < 0.5          # read just before and just after the step
             if bracket:
@@ -201,7 +216,8 @@ def mono_case(rng, dom, maxlen, forward_only, retro=True):
         if ops[-1][0] != "rd" and rng.random() < 0.5:
             ops.append(["rd", "all"])
     return {"kind": "mono", "dom": dom, "base": base, "init": init, "ops": ops, "forward_only": forward_only,
-            "retro": retro}
+            "retro": retro, "tick": 0.0 if rng.random() < 0.5 else (rng.choice([1, 2, 8]) / Q if dom == "dyadic" else
+                                                                       rng.choice([1e-6, 0.125, 0.01]))}
 
 
 def cases(tier, seed, shard, nshards):
@@ -404,7 +420,7 @@ def run_tymer(case, ctx):
 # --------------------------------------------------------------------------
 def run_mono(case, ctx):
     dyadic = case["dom"] == "dyadic"
-    clock = FakeClock(base=case["base"])
+    clock = FakeClock(base=case["base"], tick=case.get("tick", 0.0))   # tick: every time() call reads later than the last
     init = case["init"]
     with Installed(clock, [timing]):
         clock.work(init["pre_adv"])
@@ -445,6 +461,7 @@ def run_mono(case, ctx):
             for name in names:
                 was_exp = watch.was_expired
                 behind = clock.peek() < high[0]
+                calls0, nlog0 = clock.total_reads, len(clock.log)
                 try:
                     v = getattr(timer, name)
                 except timing.RetroTimerError as ex:
@@ -476,6 +493,10 @@ def run_mono(case, ctx):
                     raised_since_return[0] = False
                     high[0] = max(high[0], clock.peek())
                 ctx.count("mono_reads")
+                ctx.peak("mono_max_clock_calls_in_one_property_read", clock.total_reads - calls0)
+                if any(e[0] == "step" and e[3] == "call" for e in clock.log[nlog0:]):
+                    ctx.count("mono_property_reads_with_a_scheduled_step")
+                    backstep_pending = True
                 if backstep_pending:
                     ctx.count("mono_reads_after_backstep")
                 if name == "elapsed":
@@ -526,6 +547,12 @@ def run_mono(case, ctx):
                 backstep_pending = True
                 stepped_in_period = True
                 seq.append(("back",))
+            elif kind == "backat":
+                clock.step_at_call(op[1], op[2])
+                grow(op[2])
+                ctx.count("mono_backsteps_scheduled_at_a_call")
+                stepped_in_period = True
+                seq.append(("backat", op[1]))
             elif kind == "rd":
                 if not read(op[1]):
                     return
